@@ -17,7 +17,7 @@ import (
 )
 
 func init() {
-	h.Register(&h.Prop{ID: "C15", Gen: genC15, Exec: withCells(map[string]h.ExecFn{
+	h.Register(&h.Prop{ID: "C15", Gen: genC15, Exec: withSeed(withCells(map[string]h.ExecFn{
 		"w.addr":            exWAddr,
 		"w.gwa":             exWGwa,
 		"w.gsi":             exWGsi,
@@ -29,7 +29,14 @@ func init() {
 		"go.codes.distinct": goCodesDistinct,
 		"go.send.prop":      goSendProp,
 		"go.send.hist":      goSendHist,
-	})})
+	}))})
+}
+
+func withSeed(m map[string]h.ExecFn) map[string]h.ExecFn {
+	for k, v := range seedExecs() {
+		m[k] = v
+	}
+	return m
 }
 
 // w.addr <ver> <seed> <pk> <wc|_> <sub|_> <net|_> <code>
@@ -615,6 +622,7 @@ func randDict(g *h.G, ver wallet.Version) *boc.Cell {
 func genC15(g *h.G) {
 	cx := &c15gen{g}
 	genPrim(g, "prim.sha256")
+	genSeeds(g)
 	g.Emit("go.addr.anchor")
 	g.Emit("go.codes.distinct")
 	for _, x := range addrAnchors {
